@@ -2,6 +2,7 @@ import LentilVerif.Lemmas.Fft
 import LentilVerif.Lemmas.FftDft
 import LentilVerif.Lemmas.Pad
 import LentilVerif.Lemmas.FftBridge
+import LentilVerif.Lemmas.FftGuards
 import LentilVerif.Props.C02
 import Mathlib.Analysis.Real.Sqrt
 import LentilVerif.Lemmas.FftComplex
@@ -37,30 +38,6 @@ theorem refuses_any_tilted_field (one : K) (fs : List (Fld K)) (ntilt : List Int
 theorem untilted_not_refused (ntilt : List Int) (h : ∀ n ∈ ntilt, n = 0) : Gen.hasTilt ntilt = false :=
   hasTilt_false_of_all_zero ntilt h
 
-/-- **Shapes larger than the grid are refused**: `shape·oversample > fft_shape` on some axis gives `ValueError` -/
-theorem refuses_larger_shape (one : K) (fs : List (Fld K)) (W0 W1 : Int) (dx0 dx1 du0 du1 wl z : R) (os : Int)
-    (sh : Int × Int) (scratch : Option (Arr K))
-    (hbig : sh.1 * os > (fftShape dx0 dx1 du0 du1 z wl os).1 ∨ sh.2 * os > (fftShape dx0 dx1 du0 du1 z wl os).2) :
-    propagateFft one fs false W0 W1 dx0 dx1 du0 du1 wl z os (some sh) scratch = FftOut.valueError := by
-  have : shapeTooBig (some sh) (fftShape dx0 dx1 du0 du1 z wl os) os = true := by
-    simp only [shapeTooBig, Bool.or_eq_true, decide_eq_true_eq]; exact hbig
-  simp only [propagateFft, Bool.false_eq_true, if_false, this, if_true]
-
-/-- every accepted shape fits the grid: the output is `shape·oversample` and never larger than `fft_shape` -/
-theorem accepted_shape_fits (one : K) (fs : List (Fld K)) (W0 W1 : Int) (dx0 dx1 du0 du1 wl z : R) (os : Int)
-    (sh : Int × Int) (scratch : Option (Arr K)) (lam : R) (S0 S1 : Int) (so : Int × Int) (g : Fld K)
-    (h : propagateFft one fs false W0 W1 dx0 dx1 du0 du1 wl z os (some sh) scratch = FftOut.ok lam S0 S1 so g) :
-    so = (sh.1 * os, sh.2 * os) ∧ so.1 ≤ S0 ∧ so.2 ≤ S1 ∧ (S0, S1) = fftShape dx0 dx1 du0 du1 z wl os := by
-  by_cases hb : shapeTooBig (some sh) (fftShape dx0 dx1 du0 du1 z wl os) os = true
-  · simp only [propagateFft, Bool.false_eq_true, if_false, hb, if_true] at h; cases h
-  · by_cases ht : scratchTooSmall scratch (fftShape dx0 dx1 du0 du1 z wl os) = true
-    · simp only [propagateFft, Bool.false_eq_true, if_false, hb, ht, if_true] at h; cases h
-    · simp only [propagateFft, Bool.false_eq_true, if_false, hb, ht, FftOut.ok.injEq] at h
-      simp only [shapeTooBig, Bool.or_eq_true, decide_eq_true_eq, not_or, not_lt, gt_iff_lt] at hb
-      obtain ⟨_, h0, h1, hso, _⟩ := h
-      subst h0 h1 hso
-      exact ⟨rfl, hb.1, hb.2, rfl⟩
-
 /-- **A scratch buffer of exactly the advertised `scratch_shape` (= `fft_shape`) is sufficient**, and so is any larger
 one: a call that is accepted without scratch is accepted with it -/
 theorem scratch_shape_sufficient (one : K) (fs : List (Fld K)) (W0 W1 : Int) (dx0 dx1 du0 du1 wl z : R) (os : Int)
@@ -68,9 +45,8 @@ theorem scratch_shape_sufficient (one : K) (fs : List (Fld K)) (W0 W1 : Int) (dx
     (hs : scr.s0 ≥ (fftShape dx0 dx1 du0 du1 z wl os).1 ∧ scr.s1 ≥ (fftShape dx0 dx1 du0 du1 z wl os).2)
     (hno : propagateFft one fs false W0 W1 dx0 dx1 du0 du1 wl z os shape none ≠ FftOut.valueError) :
     propagateFft one fs false W0 W1 dx0 dx1 du0 du1 wl z os shape (some scr) ≠ FftOut.valueError := by
-  have hsm : scratchTooSmall (some scr) (fftShape dx0 dx1 du0 du1 z wl os) = false := by
-    simp only [scratchTooSmall, Bool.not_eq_false', Bool.and_eq_true, decide_eq_true_eq]; exact hs
-  by_cases hb : shapeTooBig shape (fftShape dx0 dx1 du0 du1 z wl os) os = true
+  have hsm : scratchTooSmall (some scr) (fftShape dx0 dx1 du0 du1 z wl os) = false := (scratchTooSmall_false_iff _ _).mpr hs
+  by_cases hb : shapeTooBig (R := R) shape (fftShape dx0 dx1 du0 du1 z wl os) os = true
   · simp only [propagateFft, Bool.false_eq_true, if_false, hb, if_true, ne_eq, not_true_eq_false] at hno
   · simp only [propagateFft, Bool.false_eq_true, if_false, hb, hsm]; intro h; cases h
 
@@ -79,9 +55,8 @@ theorem refuses_small_scratch (one : K) (fs : List (Fld K)) (W0 W1 : Int) (dx0 d
     (shape : Option (Int × Int)) (scr : Arr K)
     (hs : scr.s0 < (fftShape dx0 dx1 du0 du1 z wl os).1 ∨ scr.s1 < (fftShape dx0 dx1 du0 du1 z wl os).2) :
     propagateFft one fs false W0 W1 dx0 dx1 du0 du1 wl z os shape (some scr) = FftOut.valueError := by
-  have hsm : scratchTooSmall (some scr) (fftShape dx0 dx1 du0 du1 z wl os) = true := by
-    simp only [scratchTooSmall, Bool.not_eq_true', Bool.and_eq_false_iff, decide_eq_false_iff_not, ge_iff_le, not_le]; exact hs
-  by_cases hb : shapeTooBig shape (fftShape dx0 dx1 du0 du1 z wl os) os = true
+  have hsm : scratchTooSmall (some scr) (fftShape dx0 dx1 du0 du1 z wl os) = true := (scratchTooSmall_true_iff _ _).mpr hs
+  by_cases hb : shapeTooBig (R := R) shape (fftShape dx0 dx1 du0 du1 z wl os) os = true
   · simp only [propagateFft, Bool.false_eq_true, if_false, hb, if_true]
   · simp only [propagateFft, Bool.false_eq_true, if_false, hb, hsm, if_true]
 
@@ -130,11 +105,11 @@ theorem scratch_equals_no_scratch {K R : Type} [Add R] [Sub R] [Mul R] [Neg R] [
     (h : propagateFft 1 fs false W0 W1 dx0 dx1 du0 du1 wl z os shape none = FftOut.ok lam S0 S1 so g) :
     ∃ g' : Fld K, propagateFft 1 fs false W0 W1 dx0 dx1 du0 du1 wl z os shape (some scr) = FftOut.ok lam S0 S1 so g' ∧
       g'.o0 = g.o0 ∧ g'.o1 = g.o1 ∧ ∀ u v, g'.arr.get u v = g.arr.get u v := by
-  have hsm : scratchTooSmall (some scr) (fftShape dx0 dx1 du0 du1 z wl os) = false := by
-    simp only [scratchTooSmall, Bool.not_eq_false', Bool.and_eq_true, decide_eq_true_eq]; exact hs
-  by_cases hb : shapeTooBig shape (fftShape dx0 dx1 du0 du1 z wl os) os = true
+  have hsm : scratchTooSmall (some scr) (fftShape dx0 dx1 du0 du1 z wl os) = false := (scratchTooSmall_false_iff _ _).mpr hs
+  have hsn : scratchTooSmall (none : Option (Arr K)) (fftShape dx0 dx1 du0 du1 z wl os) = false := rfl
+  by_cases hb : shapeTooBig (R := R) shape (fftShape dx0 dx1 du0 du1 z wl os) os = true
   · simp only [propagateFft, Bool.false_eq_true, if_false, hb, if_true] at h; cases h
-  simp only [propagateFft, Bool.false_eq_true, if_false, hb, scratchTooSmall, FftOut.ok.injEq] at h
+  simp only [propagateFft, Bool.false_eq_true, if_false, hb, hsn, FftOut.ok.injEq] at h
   obtain ⟨hl, h0, h1, hso, hg⟩ := h
   refine ⟨_, by simp only [propagateFft, Bool.false_eq_true, if_false, hb, hsm, FftOut.ok.injEq]; exact ⟨hl, h0, h1, hso, rfl⟩, ?_, ?_, ?_⟩
   · rw [← hg]
@@ -171,16 +146,49 @@ theorem scratch_equals_no_scratch {K R : Type} [Add R] [Sub R] [Mul R] [Neg R] [
       apply sumRange_congr; intro a ha'
       exfalso; apply hS; constructor <;> omega
 
+/-! ## The shape guard: the float comparison `shape > fft_shape/oversample` (generated) is the integer criterion -/
+section ordered
+variable {K R : Type} [Field R] [LinearOrder R] [IsStrictOrderedRing R] [RealLike R] [FftLike R] [Add K] [Mul K] [Zero K] [CxLike K R]
+
+/-- **Shapes larger than the grid are refused**: `shape·oversample > fft_shape` on some axis gives `ValueError` (the code
+compares `shape > fft_shape/oversample` in floats — generated `Gen.fftShapeTooBig`; `hgt`: `FftLike.gt` is `>`) -/
+theorem refuses_larger_shape (hcast : ∀ n : Int, (RealLike.ofInt n : R) = (n : R)) (hgt : ∀ a b : R, FftLike.gt a b = true ↔ b < a)
+    (one : K) (fs : List (Fld K)) (W0 W1 : Int) (dx0 dx1 du0 du1 wl z : R) (os : Int) (hos : 0 < os)
+    (sh : Int × Int) (scratch : Option (Arr K))
+    (hbig : sh.1 * os > (fftShape dx0 dx1 du0 du1 z wl os).1 ∨ sh.2 * os > (fftShape dx0 dx1 du0 du1 z wl os).2) :
+    propagateFft one fs false W0 W1 dx0 dx1 du0 du1 wl z os (some sh) scratch = FftOut.valueError := by
+  have : shapeTooBig (R := R) (some sh) (fftShape dx0 dx1 du0 du1 z wl os) os = true :=
+    (shapeTooBig_iff hcast hgt sh _ os hos).mpr hbig
+  simp only [propagateFft, Bool.false_eq_true, if_false, this, if_true]
+
+/-- every accepted shape fits the grid: the output is `shape·oversample` and never larger than `fft_shape` -/
+theorem accepted_shape_fits (hcast : ∀ n : Int, (RealLike.ofInt n : R) = (n : R)) (hgt : ∀ a b : R, FftLike.gt a b = true ↔ b < a)
+    (one : K) (fs : List (Fld K)) (W0 W1 : Int) (dx0 dx1 du0 du1 wl z : R) (os : Int) (hos : 0 < os)
+    (sh : Int × Int) (scratch : Option (Arr K)) (lam : R) (S0 S1 : Int) (so : Int × Int) (g : Fld K)
+    (h : propagateFft one fs false W0 W1 dx0 dx1 du0 du1 wl z os (some sh) scratch = FftOut.ok lam S0 S1 so g) :
+    so = (sh.1 * os, sh.2 * os) ∧ so.1 ≤ S0 ∧ so.2 ≤ S1 ∧ (S0, S1) = fftShape dx0 dx1 du0 du1 z wl os := by
+  by_cases hb : shapeTooBig (R := R) (some sh) (fftShape dx0 dx1 du0 du1 z wl os) os = true
+  · simp only [propagateFft, Bool.false_eq_true, if_false, hb, if_true] at h; cases h
+  · by_cases ht : scratchTooSmall scratch (fftShape dx0 dx1 du0 du1 z wl os) = true
+    · simp only [propagateFft, Bool.false_eq_true, if_false, hb, ht, if_true] at h; cases h
+    · simp only [propagateFft, Bool.false_eq_true, if_false, hb, ht, FftOut.ok.injEq] at h
+      rw [shapeTooBig_iff hcast hgt sh _ os hos] at hb
+      simp only [not_or, not_lt, gt_iff_lt] at hb
+      obtain ⟨_, h0, h1, hso, _⟩ := h
+      subst h0 h1 hso
+      exact ⟨rfl, hb.1, hb.2, rfl⟩
+end ordered
+
 /-- **Isotropic sampling: at the reported wavelength, alpha = 1/S on both axes.** If `dx0·du0 = dx1·du1` and the grid is
 `S x S`, the DFT sampling ratio computed with the reported propagation wavelength is exactly `1/S` per axis. -/
 theorem reported_wavelength_isotropic {R : Type} [Field R] [RealLike R] [FftLike R]
     (hcast : ∀ n : Int, (RealLike.ofInt n : R) = (n : R)) (hmin : ∀ a : R, FftLike.min a a = a)
-    (dx0 dx1 du0 du1 z : R) (os S : Int) (hiso : dx0 * du0 = dx1 * du1)
+    (dx0 dx1 du0 du1 z wl : R) (os S : Int) (hiso : dx0 * du0 = dx1 * du1)
     (hp : dx0 * du0 ≠ 0) (hz : z ≠ 0) (hos : (os : R) ≠ 0) (hS : (S : R) ≠ 0) :
-    dftAlpha dx0 dx1 du0 du1 (propWavelength S S dx0 dx1 du0 du1 z os) z os = (1 / (S : R), 1 / (S : R)) := by
+    dftAlpha dx0 dx1 du0 du1 (propWavelength S S dx0 dx1 du0 du1 z wl os) z os = (1 / (S : R), 1 / (S : R)) := by
   have hp1 : dx1 * du1 ≠ 0 := hiso ▸ hp
   unfold dftAlpha propWavelength
-  simp only [Gen.dftAlphaCall, Gen.dftAlpha, Gen.fftWavelengths]
+  simp only [Gen.dftAlphaCall, Gen.dftAlpha, Gen.fftReportedWavelengths, Gen.fftWavelengths]
   rw [hcast, hcast]
   have e : ((S : R) / (os : R) * dx1 * du1) / z = ((S : R) / (os : R) * dx0 * du0) / z := by
     rw [mul_assoc, mul_assoc, hiso]
@@ -197,15 +205,51 @@ theorem fft_scale_invariant {R : Type} [Field R] [RealLike R] [FftLike R]
     (hminmul : ∀ k a b : R, FftLike.min (k * a) (k * b) = k * FftLike.min a b)
     (k dx0 dx1 du0 du1 z wl : R) (os S0 S1 : Int) (hk : k ≠ 0) :
     fftShape (k * dx0) (k * dx1) (k * du0) (k * du1) (k * z) (k * wl) os = fftShape dx0 dx1 du0 du1 z wl os ∧
-    propWavelength S0 S1 (k * dx0) (k * dx1) (k * du0) (k * du1) (k * z) os = k * propWavelength S0 S1 dx0 dx1 du0 du1 z os := by
+    propWavelength S0 S1 (k * dx0) (k * dx1) (k * du0) (k * du1) (k * z) (k * wl) os = k * propWavelength S0 S1 dx0 dx1 du0 du1 z wl os := by
   constructor
-  · simp only [fftShape, Gen.fftAlphaCall, Gen.dftAlpha]
+  · simp only [fftShape, Gen.fftShapeAlpha, Gen.fftAlphaCall, Gen.dftAlpha]
     have e0 : k * dx0 * (k * du0) / (k * z * (k * wl) * RealLike.ofInt os) = dx0 * du0 / (z * wl * RealLike.ofInt os) := by field_simp
     have e1 : k * dx1 * (k * du1) / (k * z * (k * wl) * RealLike.ofInt os) = dx1 * du1 / (z * wl * RealLike.ofInt os) := by field_simp
     rw [e0, e1]
-  · simp only [propWavelength, Gen.fftWavelengths]
+  · simp only [propWavelength, Gen.fftReportedWavelengths, Gen.fftWavelengths]
     rw [← hminmul]
     congr 1 <;> field_simp
+
+/-- **Metadata of the result** (generated hand-over `Gen.fftOutMeta`, `Gen.fftFieldPixelscale`): the output carries the reported
+wavelength, the input focal length and the sampling `pixelscale/oversample` per axis, on the wavefront and on its Field. -/
+theorem fft_metadata_carried {R : Type} [Field R] [RealLike R] [FftLike R] (lam dx0 dx1 du0 du1 z wl : R) (os : Int) :
+    fftMeta lam dx0 dx1 du0 du1 z wl os = (lam, (du0 / RealLike.ofInt os, du1 / RealLike.ofInt os), z) ∧
+    Gen.fftFieldPixelscale dx0 dx1 du0 du1 z wl (RealLike.ofInt os : R) = (du0 / RealLike.ofInt os, du1 / RealLike.ofInt os) :=
+  ⟨rfl, rfl⟩
+
+/-- **`scratch_shape` advertises the grid of the propagation at the largest wavelength** (generated call wiring
+`Gen.scratchShapeAlpha`): with `maxWl = np.max(wavelength)`, `scratch_shape(wavelength, dx, du, z, oversample)` is exactly
+`fft_shape` of `propagate_fft` for a wavefront of that wavelength — so by `scratch_shape_sufficient` a buffer of exactly
+the advertised shape is accepted. -/
+theorem scratch_shape_is_fft_shape {R : Type} [Field R] [RealLike R] [FftLike R] (maxWl dx0 dx1 du0 du1 z : R) (os : Int) :
+    scratchShape maxWl dx0 dx1 du0 du1 z os = fftShape dx0 dx1 du0 du1 z maxWl os := rfl
+
+/-- **A buffer advertised for a list of wavelengths suffices for each of them**: the grid grows with the wavelength
+(`hmono`: the rounding is monotone — true of round-half-even), so the grid at `np.max(wavelength)` dominates the grid at
+every smaller wavelength, per axis (positive pixel scales, focal length, oversampling). -/
+theorem scratch_shape_monotone {R : Type} [Field R] [LinearOrder R] [IsStrictOrderedRing R] [RealLike R] [FftLike R]
+    (hcast : ∀ n : Int, (RealLike.ofInt n : R) = (n : R))
+    (hmono : ∀ a b : R, a ≤ b → FftLike.roundEven a ≤ FftLike.roundEven b)
+    (wl wl' dx0 dx1 du0 du1 z : R) (os : Int) (hwl : wl ≤ wl') (hpos : 0 < dx0 ∧ 0 < dx1 ∧ 0 < du0 ∧ 0 < du1 ∧ 0 < z ∧ 0 < wl)
+    (hos : 0 < os) :
+    (fftShape dx0 dx1 du0 du1 z wl os).1 ≤ (scratchShape wl' dx0 dx1 du0 du1 z os).1 ∧
+    (fftShape dx0 dx1 du0 du1 z wl os).2 ≤ (scratchShape wl' dx0 dx1 du0 du1 z os).2 := by
+  obtain ⟨h0, h1, h2, h3, hz, hw⟩ := hpos
+  have hosR : (0 : R) < (os : R) := by exact_mod_cast hos
+  have hw' : 0 < wl' := lt_of_lt_of_le hw hwl
+  simp only [scratchShape, fftShape, Gen.scratchShapeAlpha, Gen.fftShapeAlpha, Gen.fftAlphaCall, Gen.dftAlpha, hcast]
+  constructor <;> apply hmono
+  · rw [Int.cast_one, one_div_div, one_div_div]
+    apply div_le_div_of_nonneg_right _ (le_of_lt (mul_pos h0 h2))
+    exact mul_le_mul_of_nonneg_right (mul_le_mul_of_nonneg_left hwl hz.le) hosR.le
+  · rw [Int.cast_one, one_div_div, one_div_div]
+    apply div_le_div_of_nonneg_right _ (le_of_lt (mul_pos h1 h3))
+    exact mul_le_mul_of_nonneg_right (mul_le_mul_of_nonneg_left hwl hz.le) hosR.le
 
 /-! ## The FFT path is the unitary DFT with alpha = 1/S, centred at floor(S/2), for even and odd grids -/
 section fftdft
@@ -243,7 +287,7 @@ theorem fft_eq_dft_at_reported_wavelength (hcast : ∀ n : Int, (RealLike.ofInt 
       (dft2 (fftGrid one fs W0 W1 S0 S1 scratch) (dftAlpha dx0 dx1 du0 du1 lam z os).1 (dftAlpha dx0 dx1 du0 du1 lam z os).2
         S0 S1 0 0 0 0 true).get u v := by
   -- unpack the accepted call
-  by_cases hb : shapeTooBig shape (fftShape dx0 dx1 du0 du1 z wl os) os = true
+  by_cases hb : shapeTooBig (R := R) shape (fftShape dx0 dx1 du0 du1 z wl os) os = true
   · simp only [propagateFft, Bool.false_eq_true, if_false, hb, if_true] at h; cases h
   by_cases ht : scratchTooSmall scratch (fftShape dx0 dx1 du0 du1 z wl os) = true
   · simp only [propagateFft, Bool.false_eq_true, if_false, hb, ht, if_true] at h; cases h
@@ -251,11 +295,11 @@ theorem fft_eq_dft_at_reported_wavelength (hcast : ∀ n : Int, (RealLike.ofInt 
   obtain ⟨hl, h0, h1, _, hg⟩ := h
   -- isotropic sampling gives a square grid
   have hsq : S0 = S1 := by
-    rw [← h0, ← h1]; simp only [fftShape, Gen.fftAlphaCall, Gen.dftAlpha, hiso]
+    rw [← h0, ← h1]; simp only [fftShape, Gen.fftShapeAlpha, Gen.fftAlphaCall, Gen.dftAlpha, hiso]
   subst hsq
   have hSR : (S0 : R) ≠ 0 := Int.cast_ne_zero.mpr (by omega)
   rw [h0, h1] at hl hg
-  have hα := reported_wavelength_isotropic hcast hmin dx0 dx1 du0 du1 z os S0 hiso hp hz hos hSR
+  have hα := reported_wavelength_isotropic hcast hmin dx0 dx1 du0 du1 z wl os S0 hiso hp hz hos hSR
   rw [hl] at hα
   have hsh : (fftGrid one fs W0 W1 S0 S0 scratch).s0 = S0 ∧ (fftGrid one fs W0 W1 S0 S0 scratch).s1 = S0 := by
     cases scratch with
@@ -303,7 +347,7 @@ theorem fft_eq_propagate_dft (fs : List (Fld ℂ)) (W0 W1 : Int) (dx0 dx1 du0 du
     1 fs W0 W1 dx0 dx1 du0 du1 wl z os shape scratch lam S0 S1 so g h hiso hp hz hosR hS.1 (norm_complex S0 S1 hS.1 hS.2)
   -- unpack the accepted call: offsets 0, output shape fits the grid
   have hg : g.o0 = 0 ∧ g.o1 = 0 ∧ g.arr.s0 = S0 ∧ g.arr.s1 = S1 ∧ so.1 ≤ S0 ∧ so.2 ≤ S1 := by
-    by_cases hb : shapeTooBig shape (fftShape dx0 dx1 du0 du1 z wl os) os = true
+    by_cases hb : shapeTooBig (R := ℝ) shape (fftShape dx0 dx1 du0 du1 z wl os) os = true
     · simp only [propagateFft, Bool.false_eq_true, if_false, hb, if_true] at h; cases h
     by_cases ht : scratchTooSmall scratch (fftShape dx0 dx1 du0 du1 z wl os) = true
     · simp only [propagateFft, Bool.false_eq_true, if_false, hb, ht, if_true] at h; cases h
@@ -314,15 +358,17 @@ theorem fft_eq_propagate_dft (fs : List (Fld ℂ)) (W0 W1 : Int) (dx0 dx1 du0 du
     · rw [← hg', ← h0]; simp only [fft2c]; exact hsh.1
     · rw [← hg', ← h1]; simp only [fft2c]; exact hsh.2
     · rw [← hso', ← h0]; cases shape with
-      | none => simp [fftShapeOut]
+      | none => simp [fftShapeOut, Gen.fftShapeOutNone]
       | some sh =>
-        simp only [shapeTooBig, Bool.or_eq_true, decide_eq_true_eq, not_or, not_lt, gt_iff_lt] at hb
-        simp only [fftShapeOut]; exact hb.1
+        rw [shapeTooBig_iff (fun _ => rfl) gt_real sh _ os hos] at hb
+        simp only [not_or, not_lt, gt_iff_lt] at hb
+        rw [fftShapeOut_some]; exact hb.1
     · rw [← hso', ← h1]; cases shape with
-      | none => simp [fftShapeOut]
+      | none => simp [fftShapeOut, Gen.fftShapeOutNone]
       | some sh =>
-        simp only [shapeTooBig, Bool.or_eq_true, decide_eq_true_eq, not_or, not_lt, gt_iff_lt] at hb
-        simp only [fftShapeOut]; exact hb.2
+        rw [shapeTooBig_iff (fun _ => rfl) gt_real sh _ os hos] at hb
+        simp only [not_or, not_lt, gt_iff_lt] at hb
+        rw [fftShapeOut_some]; exact hb.2
   obtain ⟨ho0, ho1, hs0, hs1, hle0, hle1⟩ := hg
   -- left-hand side: the crop of the grid-sized output field
   rw [wavefrontField_get [g] so.1 so.2 i j hi hj]
@@ -354,12 +400,12 @@ theorem fft_eq_propagate_dft (fs : List (Fld ℂ)) (W0 W1 : Int) (dx0 dx1 du0 du
 theorem fftShape_example : fftShape (1/2 : ℝ) (1/2) (1/2) (1/2) 1 1 1 = (4, 4) := by
   have h4 : ((RealLike.ofInt 1 : ℝ) / ((1/2 : ℝ) * (1/2) / (1 * 1 * RealLike.ofInt 1))) = 4 := by
     simp only [RealLike.ofInt]; norm_num
-  simp only [fftShape, Gen.fftAlphaCall, Gen.dftAlpha, h4, FftLike.roundEven]
+  simp only [fftShape, Gen.fftShapeAlpha, Gen.fftAlphaCall, Gen.dftAlpha, h4, FftLike.roundEven]
   norm_num
 
 example : ∃ lam g, propagateFft (K := ℂ) (R := ℝ) 1 [⟨⟨2, 2, fun i j => (i + 2 * j + 1 : ℤ)⟩, 0, 0⟩] false 2 2 (1/2) (1/2) (1/2) (1/2) 1 1 1
     none none = FftOut.ok lam 4 4 (4, 4) g := by
-  simp only [propagateFft, Bool.false_eq_true, if_false, shapeTooBig, scratchTooSmall, fftShapeOut, fftShape_example,
+  simp only [propagateFft, Bool.false_eq_true, if_false, shapeTooBig, scratchTooSmall, fftShapeOut, Gen.fftShapeOutNone, fftShape_example,
     FftOut.ok.injEq, true_and]
   exact ⟨_, _, rfl, rfl⟩
 end complex
@@ -375,19 +421,19 @@ def roundEvenQ (q : ℚ) : Int :=
   let d := q - f
   if d < 1 / 2 then f else if d > 1 / 2 then f + 1 else if f % 2 = 0 then f else f + 1
 local instance : RealLike ℚ := ⟨fun n => (n : ℚ), 6, id, fun x => |x|⟩
-local instance : FftLike ℚ := ⟨roundEvenQ, min⟩
+local instance : FftLike ℚ := ⟨roundEvenQ, min, fun a b => decide (b < a)⟩
 
 /-- witness on the model: `1/alpha = (4.3, 8.6)` gives the grid `4 x 9`; the reported wavelength is the row axis' one,
 and the column sampling ratio at that wavelength is `1/8`, not `1/9` -/
 theorem kf_fft_anisotropic_wavelength :
     fftShape (1 : ℚ) 1 (10 / 43) (10 / 86) 1 1 1 = (4, 9) ∧
-    (dftAlpha (1 : ℚ) 1 (10 / 43) (10 / 86) (propWavelength 4 9 (1 : ℚ) 1 (10 / 43) (10 / 86) 1 1) 1 1).2 = 1 / 8 := by
+    (dftAlpha (1 : ℚ) 1 (10 / 43) (10 / 86) (propWavelength 4 9 (1 : ℚ) 1 (10 / 43) (10 / 86) 1 1 1) 1 1).2 = 1 / 8 := by
   constructor
   · decide +kernel
   · decide +kernel
 
 /-- non-vacuity of `reported_wavelength_isotropic`: `dx·du = 1/5` on both axes, grid 5, oversample 2 -/
-example := reported_wavelength_isotropic (R := ℚ) (fun _ => rfl) (fun a => min_self a) (1 / 2) (1 / 4) (2 / 5) (4 / 5) 3 2 5
+example := reported_wavelength_isotropic (R := ℚ) (fun _ => rfl) (fun a => min_self a) (1 / 2) (1 / 4) (2 / 5) (4 / 5) 3 7 2 5
   (by norm_num) (by norm_num) (by norm_num) (by norm_num) (by norm_num)
 end witness
 
@@ -395,7 +441,7 @@ end witness
 section
 local instance : RealLike Int := ⟨id, 6, id, fun x => x.natAbs⟩
 local instance : CxLike Int Int := ⟨fun t => t, id, id, fun z _ => z⟩
-local instance : FftLike Int := ⟨fun x => x, min⟩
+local instance : FftLike Int := ⟨fun x => x, min, fun a b => decide (b < a)⟩
 -- dx·du = 1, z·wl·os = 1: alpha = 1, grid 1x1; shape (2,1) is too large
 example : propagateFft (K := Int) (R := Int) 1 [] false 1 1 1 1 1 1 1 1 1 (some (2, 1)) none = FftOut.valueError := rfl
 example : ∃ lam S0 S1 so g, propagateFft (K := Int) (R := Int) 1 [] false 1 1 1 1 1 1 1 1 1 (some (1, 1))
